@@ -214,3 +214,86 @@ def silent_in_openconfirm(tier, seed):
 @replayer('C12', 'silent-in-openconfirm')
 def _replay_silent(f):
     return _silent_case(f['input']['hold']) is None
+
+
+# ---------------------------------------------------------------------------------------------------------------------
+# the hold time is the one negotiated for THIS session: two sessions of one Peer object which negotiate different hold
+# times, the remote then goes silent on the second one
+def _two_sessions_case(first_hold, second_hold):
+    import asyncio
+    from . import sessionharness as S
+    from .c05 import Traced
+
+    async def go():
+        sess = Traced()
+        inp = {'first_session_hold': first_hold, 'second_session_hold': second_hold}
+        try:
+            try:
+                await sess.to_state('ESTABLISHED', peer_open=S.open_msg(hold=first_hold))
+            except RuntimeError as e:
+                return {'what': f'harness: {e}', 'input': inp, 'harness': True}
+            await sess.remote.send(S.msg(3, bytes([6, 2])))  # the remote ends the first session with a Cease
+            await sess.remote.drain_until_close(timeout=2.5)
+            await sess.finish(timeout=4)
+            sess.peer._restart = True
+            sess.peer._teardown = None
+            sess.again()
+            mark = len(sess.log)
+            try:
+                await sess.to_state('ESTABLISHED', peer_open=S.open_msg(hold=second_hold))
+            except RuntimeError as e:
+                return {'what': f'harness: second session: {e}', 'input': inp, 'harness': True}
+            t0 = asyncio.get_event_loop().time()
+            silent_for = min(second_hold, 3) + 2.0
+            fired = None
+            while asyncio.get_event_loop().time() - t0 < silent_for:
+                await asyncio.sleep(0.05)
+                try:
+                    while sess.remote.sock.recv(65536):
+                        pass
+                except (BlockingIOError, OSError):
+                    pass
+                nots = [e for e in sess.log[mark:] if e[0] == 'sent' and e[2] == 3]
+                if nots:
+                    fired = asyncio.get_event_loop().time() - t0
+                    break
+            nots = [e for e in sess.log[mark:] if e[0] == 'sent' and e[2] == 3]
+            sess.peer.teardown(2)
+            await sess.finish(timeout=4)
+            if second_hold <= 3:
+                if fired is None:
+                    return {'what': f'second session of the same peer, hold time {second_hold} s (the first had {first_hold} s): {silent_for:.1f} s of silence and no NOTIFICATION 4/0', 'input': inp}
+                if fired < second_hold - 0.3 or (nots[0][3][0], nots[0][3][1]) != (4, 0):
+                    return {'what': f'second session, hold time {second_hold} s: NOTIFICATION {nots[0][3][0]}/{nots[0][3][1]} after {fired:.1f} s of silence', 'input': inp}
+            elif fired is not None:
+                return {'what': f'second session of the same peer, hold time {second_hold} s (the first had {first_hold} s): closed with NOTIFICATION {nots[0][3][0]}/{nots[0][3][1]} after only {fired:.1f} s of silence', 'input': inp}
+            return None
+        finally:
+            sess.cleanup()
+
+    return S.run(go(), timeout=60)
+
+
+def two_session_hold_times(tier, seed):
+    import multiprocessing as mp
+
+    cases = [(180, 3), (3, 180)] if tier == 'quick' else [(180, 3), (3, 180), (3, 3), (9, 3), (3, 9)]
+    with mp.get_context('fork').Pool(len(cases)) as pool:
+        res = pool.starmap(_two_sessions_case, cases)
+    crashes = [r for r in res if r and r.get('harness')]
+    if crashes:
+        raise RuntimeError('session harness failed: ' + crashes[0]['what'])
+    fails = [r for r in res if r]
+    return {'evaluations': len(cases), 'distinct_nontrivial': len(cases), 'bound': f'two consecutive sessions of one Peer object negotiating the hold times {cases}; the remote ends the first with a Cease and goes silent on the second: real Peer over loopback TCP', 'rule': 'one case = (hold time of the first session, of the second)', 'samples': [{'first_session_hold': 180, 'second_session_hold': 3}], 'failures': fails}
+
+
+bounded('C12', 'two-session-hold-times')(two_session_hold_times)
+bounded('C10', 'two-session-hold-times')(two_session_hold_times)
+
+
+def _replay_two(f):
+    return _two_sessions_case(f['input']['first_session_hold'], f['input']['second_session_hold']) is None
+
+
+replayer('C12', 'two-session-hold-times')(_replay_two)
+replayer('C10', 'two-session-hold-times')(_replay_two)
